@@ -34,6 +34,8 @@ func init() {
 			Run: func(P *Program, R *Report) { restoredFieldsRule(P, R) }},
 		Rule{ID: "C18.e", Explain: "codec pairs: Marshal/Unmarshal (JSON and CBOR) of Update and EventList go through the same intermediate type via compress/uncompress, which carry the same field sets; ProofList.UnmarshalJSON discriminates on A then U and rejects anything else (C08.e).",
 			Run: func(P *Program, R *Report) { codecPairsRule(P, R) }},
+		Rule{ID: "C18.g", Explain: "written keys are accepted when read back: the key loaders refuse only for the specified reasons (decoder errors, missing mandatory elements, unknown modulus length, failed validation).",
+			Run: func(P *Program, R *Report) { treeRejectionsRule(P, R, "C18.g", "loadkeys", "the key loading call tree") }},
 		Rule{ID: "C18.f", Explain: "XML tags of PublicKey/PrivateKey: no duplicate or empty element names; every field that is not serialised (xml:\"-\") is recomputed by the loaders.",
 			Run: func(P *Program, R *Report) { xmlTagsRule(P, R) }},
 	)
